@@ -335,3 +335,39 @@ func (s *Sched) chooseAlt(n int) int {
 	}
 	return c
 }
+
+// Len is the shim of len(c) on a channel: an observation of the buffer that, like a
+// select with a default case, conflicts with every operation on that channel.
+func Len[T any](c chan T) int { return lenImpl((<-chan T)(c)) }
+
+// LenR is Len for receive-only channels.
+func LenR[T any](c <-chan T) int { return lenImpl(c) }
+
+// LenS is Len for send-only channels.
+func LenS[T any](c chan<- T) int {
+	sc := S
+	if sc == nil || c == nil {
+		return len(c)
+	}
+	if sc.poison {
+		return 0
+	}
+	cs := sc.chanOf(*(*uintptr)(unsafe.Pointer(&c)), c, cap(c))
+	g := sc.arriveSelect([]int{cs.id})
+	sc.record(g, false)
+	return len(cs.buf)
+}
+
+func lenImpl[T any](c <-chan T) int {
+	sc := S
+	if sc == nil || c == nil {
+		return len(c)
+	}
+	if sc.poison {
+		return 0
+	}
+	cs := sc.chanOf(*(*uintptr)(unsafe.Pointer(&c)), c, cap(c))
+	g := sc.arriveSelect([]int{cs.id})
+	sc.record(g, false)
+	return len(cs.buf)
+}
